@@ -238,7 +238,9 @@ def generate_dependent_dispatch(tup, handlers, next_call, slf, name, err, nerr):
             # Possibilities is now empty if only one type of DependentType
 
             if not possibilities:
-                if getattr(focus, "keyable_type", False):
+                if getattr(focus, "keyable_type", False) and not any(
+                    is_dependent(t.bound) for t in featured
+                ):
                     all_keys = [
                         {key: h for key in types[k].get_keys()}
                         for h, types in handlers
